@@ -9,7 +9,7 @@ use simcore::sched::{site, Segment};
 use simcore::shrink::{Shrinker, Target};
 use simcore::stats::Stats;
 use simcore::world::World;
-use std::collections::HashSet;
+use simcore::rng::DetSet as HashSet;
 use std::io::Write;
 use std::time::Instant;
 
@@ -240,10 +240,11 @@ fn cmd_worker(args: &[String]) -> i32 {
         simcore::run::ONLY_PASS1.store(true, std::sync::atomic::Ordering::Relaxed);
     }
     let profile = profile_of(&prop);
+    let addr_probe = std::env::var("VERIF_ADDR_PROBE").is_ok();
     let t0 = Instant::now();
     let mut st = Stats::default();
-    let mut c19_set = HashSet::new();
-    let mut c09_set = HashSet::new();
+    let mut c19_set: HashSet<u64> = Default::default();
+    let mut c09_set: HashSet<u64> = Default::default();
     let mut progress = std::fs::File::create(format!("{}.progress", out)).expect("progress file");
     let mut evout = if evlog { Some(std::io::BufWriter::new(std::fs::File::create(format!("{}.evlog", out)).expect("evlog"))) } else { None };
     let mut nviol = 0u64;
@@ -260,6 +261,16 @@ fn cmd_worker(args: &[String]) -> i32 {
         }
         let w = gen_world(seed, run, profile);
         let e = execute(&w, None);
+        if addr_probe {
+            // debugging aid: is the allocator's address sequence a function of the slice?
+            let sizes = [24usize, 40, 72, 136, 264, 520];
+            let mut line = format!("{}", run);
+            for sz in sizes {
+                let v: Vec<u8> = Vec::with_capacity(sz);
+                line.push_str(&format!(" {:x}", v.as_ptr() as usize));
+            }
+            eprintln!("ADDR {}", line);
+        }
         account(&mut st, &w, &e, &mut c19_set, &mut c09_set);
         if let Some(o) = evout.as_mut() {
             let _ = writeln!(o, "{} {:016x}", run, e.ev);
@@ -273,7 +284,7 @@ fn cmd_worker(args: &[String]) -> i32 {
                 if nviol < max_viol || p == prop {
                     let mut f = violation_file(&w, &e, v, seed, run, &prop);
                     // which worlds this process executed before this one (process-global residue)
-                    f.put("worker", J::obj().set("first", J::u(first)).set("stride", J::u(stride)));
+                    f.put("worker", J::obj().set("first", J::u(first)).set("stride", J::u(stride)).set("argv", J::Arr(args.iter().map(|a| J::s(a)).collect())));
                     let _ = std::fs::write(format!("{}.viol-{}-{}.json", out, p, run), f.to_pretty());
                     nviol += 1;
                 }
